@@ -42,6 +42,12 @@ type Conn struct {
 	// the full length.  It is called with the lock held and must not call Conn
 	// methods.
 	AfterWrite func(n int, p []byte) error
+	// HoldAfterWrite, when set, is called (without the lock) once the bytes of
+	// Write number n are visible to the peer and before Write returns; it may
+	// block (the writer is held inside Write while the peer already reacts to
+	// what was written) and a non-nil result is returned by that Write together
+	// with the full length.
+	HoldAfterWrite func(n int, p []byte) error
 	// BeforeRead, when set, is called (without the lock) at entry of each Read
 	// with the index of the operation; returning an error fails the read.
 	BeforeRead func(n int) error
@@ -261,6 +267,19 @@ func (c *Conn) Write(p []byte) (int, error) {
 			return 0, err
 		}
 	}
+	k, err := c.write(n, p)
+	if err == nil {
+		c.mu.Lock()
+		hw := c.HoldAfterWrite
+		c.mu.Unlock()
+		if hw != nil {
+			err = hw(n, p)
+		}
+	}
+	return k, err
+}
+
+func (c *Conn) write(n int, p []byte) (int, error) {
 	c.mu.Lock()
 	defer c.mu.Unlock()
 	if c.closed {
